@@ -900,7 +900,18 @@ class Interp:
     # -- try / except ---------------------------------------------------------------------------
     def st_Try(self, st, env):
         if st.finalbody:
-            raise Unsupported('try/finally')
+            inner = ast.Try(body=st.body, handlers=st.handlers, orelse=st.orelse, finalbody=[])
+            ast.copy_location(inner, st)
+            try:
+                if st.handlers or st.orelse:
+                    self.st_Try(inner, env)
+                else:
+                    self.run_block(st.body, env)
+            except (PyRaise, _Return, _Break, _Continue):
+                self.run_block(st.finalbody, env)     # (an exception raised by the finally block wins)
+                raise
+            self.run_block(st.finalbody, env)
+            return
         try:
             self.run_block(st.body, env)
         except PyRaise as r:
@@ -1173,10 +1184,14 @@ class Interp:
         for path in mods:
             self.havoc_path(env, path)
         for name, o in objs:
-            if isinstance(o, list):
-                # a python list mutated in the loop: rebind the local variable to a symbolic list
-                if name in env.vars and env.vars[name] is o:
-                    env.vars[name] = havoc_value(self, o, name, lists.get(name))
+            if isinstance(o, (list, SymSet)):
+                # a python list / set mutated in the loop: rebind the local variable to a symbolic one
+                found_, cur_ = env.lookup(name)
+                if found_ and cur_ is o:
+                    e_ = env
+                    while e_ is not None and name not in e_.vars:
+                        e_ = e_.parent
+                    e_.vars[name] = havoc_value(self, o, name, lists.get(name))
                 else:
                     raise Unsupported(f'loop mutates python list reachable as {name}')
             else:
@@ -1214,7 +1229,7 @@ class Interp:
 
         def add_obj(path):
             o = val(path)
-            if isinstance(o, (ZList, HDict, list, HByteArray)):
+            if isinstance(o, (ZList, HDict, list, HByteArray, SymSet)):
                 if not any(x is o for _, x in objs):
                     objs.append((path, o))
 
@@ -1364,6 +1379,9 @@ class Interp:
         if found:
             return v
         g = self.frames[-1]['globs'] if self.frames else {}
+        ov = self.ctx.ghost.get('globals')
+        if ov and e.id in ov and e.id in g and str(g.get('__name__', '')).startswith('tapescript'):
+            return ov[e.id]          # a module-level registry treated as an arbitrary (symbolic) value
         if e.id in g:
             return g[e.id]
         if hasattr(builtins, e.id):
